@@ -1,4 +1,5 @@
 import Gopki.Abs.Conv3
+import Gopki.Lemmas.PemGen
 /-! # C15 — a run interrupted at any write is repaired by the next run
 
 An interrupted run is a `Reach` step of C12's machine: `Conv.grun` carries a `budget` (number of writes
@@ -9,4 +10,21 @@ real `importPem` at block boundaries and random offsets by the `pemfile` operati
 `Conv.converge_after_any_history` applies as it is: the next default run succeeds and restores C12's
 postcondition, and `Conv.second_run_noop` makes the run after that a no-op. -/
 namespace C15
+
+/-- **a write torn at the very last byte loses nothing**: a PEM block whose final line feed was not written is read
+    back as the complete block, and nothing remains unread; contents of any length, the three block types gopki
+    writes.  (Cuts further inside a block make the block unreadable — the file then lacks certificate or key and
+    `Conv.opWrite_sinv` applies; which cuts lose which blocks is compared with the real `importPem` at every offset in
+    the thorough tier of `pemfile`.) -/
+theorem C15_last_line_feed_may_be_missing (bs : Der.Bytes) (fuel : Nat) :
+    Pem.decode (fuel + 1) ((Pem.encode Pem.tCertificate bs).dropLast) = some (⟨Pem.tCertificate, bs⟩, []) ∧
+    Pem.decode (fuel + 1) ((Pem.encode Pem.tPrivateKey bs).dropLast) = some (⟨Pem.tPrivateKey, bs⟩, []) ∧
+    Pem.decode (fuel + 1) ((Pem.encode Pem.tRequest bs).dropLast) = some (⟨Pem.tRequest, bs⟩, []) :=
+  ⟨Pem.decode_encode_eof _ bs Pem.ty_ok.1 fuel, Pem.decode_encode_eof _ bs Pem.ty_ok.2.1 fuel, Pem.decode_encode_eof _ bs Pem.ty_ok.2.2 fuel⟩
+
+/-- whatever follows the END line — a line feed and more text, or the end of the file — the block is read and the scan
+    resumes exactly there (`Pem.LineEnd`) -/
+theorem C15_block_read_whatever_follows (ty bs X R : Der.Bytes) (hty : Pem.TyOk ty) (hX : Pem.LineEnd X R) (fuel : Nat) :
+    Pem.decode (fuel + 1) (Pem.encodeNoNl ty bs ++ X) = some (⟨ty, bs⟩, R) := Pem.decode_encode_gen ty bs X R hty hX fuel
+
 end C15
